@@ -9,6 +9,7 @@ from .. import transforms as tf
 
 ID = "C09"
 MODULE = "LasioProofs.Props.C09"
+EXTRA_MODULES = ["LasioProofs.Props.C09Redelim"]
 RULE = ("(0) first, on every run, the inputs of the repaired defects: DLM COMMA rows `1,2,3` re-padded with blanks and back; a blank line "
         "inserted between two data rows of a file without ~C read with engine='normal'; a '#' comment containing a hyphen inserted into a data "
         "section whose every row has a date `2018-05-22`; 21 comment lines inserted at the start of ~A; a 14-curve WRAP=YES file re-wrapped at "
@@ -568,6 +569,10 @@ LEVEL_TEXT = ("Machine-checked Lean 4 theorems about the executable models of th
               "21-data-line sniffer sample, hyphen rule; engine may change numpy->normal), C09_rewrap, C09_skip_header, C09_header_padding "
               "(corollary of C04). Tie: Python transformation = Lean transformation on every case (tf.apply), whole-file model vs real read on "
               "base and transformed text (tf.read), and the property's oracle on the real code for both engines.")
-LEVEL_NOTE = ("Not covered by the whole-file theorem (OK = False; oracle and correspondence only): TAB/COMMA re-padding and re-delimiting "
-              "(switching the declared delimiter). Known findings reproduced on every run: dlm-pad-text, rewrap-hyphen-rule, "
+LEVEL_NOTE = ("Props/C09Redelim.lean: re-delimiting and TAB/COMMA re-padding of NUMERIC cells (NumCells/NumBody, SepsOK, FtStripOn/Converts as "
+              "named hypotheses with counter-examples): line level (C09_redelim_line*), typed columns, window level (C09_redelim_engine, "
+              "C09_redelim_sniff, C09_redelim_readData_* incl. the numpy engine), whole file for repadLine with TAB/COMMA "
+              "(C09_repad_delimited_file, same conclusion as C09_step); for .redelim the whole-file statement is proved up to the header facts of "
+              "the changed DLM item (C09_redelim_file_of_header: they enter as hypotheses), that last step is covered by oracle and correspondence "
+              "only. Known findings reproduced on every run: dlm-pad-text, rewrap-hyphen-rule, "
               "numpy-midline-hash. The numeric services (token->float table, NULL->float) are parameters of the model.")
